@@ -343,3 +343,183 @@ pub fn case(ctx: &mut CaseCtx) -> CaseOut {
     let _ = completer_for;
     out
 }
+
+// ---------------------------------------------------------------------------------------------
+// part (b), layer 2: a client thread acknowledges messages while the engine's thread is inside the tick that
+// redelivers them
+
+pub fn def_b() -> CheckDef {
+    CheckDef {
+        id: "C09b",
+        title: "Acknowledged delivery: an acknowledgement is not lost to a tick that runs at the same time (layer 2)",
+        case: case_b,
+        rule: "case = a process with 2..5 interrupts open at once on an acknowledging channel whose handler does not acknowledge x the clock jumps past the staleness threshold x two virtual threads: the executor (on which the due tick fires and redelivers the un-acknowledged messages: query, then per message update + emit) and a client thread that acknowledges 1..all of the messages in a seeded order; the baton moves at intercepted engine lock acquisitions (preemption 10% / 50% / 90%), so an acknowledgement lands between the tick's query and its update of the same message x in-memory and SQLite store; afterwards 3..6 further ticks on layer 1. Oracle: a message whose acknowledgement has returned is never delivered by a tick that started after that return, and its stored status is `acked` (never back to created / error) at every later quiescent point. non-trivial = at least one acknowledgement overlapped the tick (a redelivery of some message happened between the first invoke and the last return); distinct = distinct (scenario hash, schedule hash)",
+        level: "exploration",
+        assumptions: &["preemption happens at engine lock acquisitions (the collections of the in-memory store and the emitter's handler maps are behind these locks; on SQLite a store call is atomic and the switch happens between calls)", "virtual threads are real OS threads released one at a time; the interleaving is the decision trace", "monotone simulated clock"],
+        probes: &["probe.ack_overlapped_the_tick", "probe.sqlite", "probe.redelivered_in_the_race", "probe.all_messages_acked"],
+        quick_cases: 1500,
+        no_shrink: &[],
+    }
+}
+
+pub fn case_b(ctx: &mut CaseCtx) -> CaseOut {
+    let sc = ctx.scenario(|gr| {
+        let n_acts = 2 + gr.below(4) as usize;
+        let mut acts = vec![];
+        for i in 0..n_acts {
+            acts.push(MAct { id: format!("a{}", i), key: format!("k{}", i), kind: ActKind::Irq, ..Default::default() });
+        }
+        let mut sc = Scenario::default();
+        let block = MAct { id: "blk".into(), kind: ActKind::Block { sequence: false, acts }, ..Default::default() };
+        sc.models.push(MWorkflow { id: "m".into(), steps: vec![MStep { id: "s1".into(), acts: vec![block], ..Default::default() }], ..Default::default() });
+        sc.starts.push(Start { model: "m".into(), vars: serde_json::Map::new(), pid: Some("p1".into()), at_q: 0 });
+        sc.channels = vec![ChanSpec { label: "ack".into(), id: "ackchan".into(), ack: true, typ: "*".into(), state: "*".into(), tag: "*".into(), key: "*".into(), uses: "*".into() }];
+        sc.client.ack = "never".into();
+        sc.client.default = Reaction::of("none");
+        sc.engine.keep_processes = true;
+        sc.engine.tick_interval_secs = 1;
+        sc.engine.max_message_retry_times = 20;
+        sc.engine.store = if gr.below(3) == 0 { "sqlite".into() } else { "mem".into() };
+        sc.knobs = random_knobs(gr);
+        sc.capture = true;
+        // preemption rate, how many messages the client acknowledges, later ticks: carried in the scenario
+        sc.pre_jump_us = *gr.pick(&[100i64, 500, 900]);
+        sc.max_ops = 1 + gr.below(n_acts as u64) as u32;
+        sc.ticks = 3 + gr.below(4) as u32;
+        sc
+    });
+    let preempt = sc.pre_jump_us.clamp(1, 950) as u32;
+    let n_ack = sc.max_ops.max(1) as usize;
+    let later_ticks = sc.ticks.max(1);
+    let acks: std::sync::Arc<std::sync::Mutex<Vec<(String, u64, u64, bool)>>> = Default::default();
+    let acks2 = acks.clone();
+    let stats: std::sync::Arc<std::sync::Mutex<(u64, u64, Option<String>, bool, u64)>> = Default::default();
+    let stats2 = stats.clone();
+    let mut sc_run = sc.clone();
+    sc_run.pre_jump_us = 0;
+    sc_run.ticks = 0;
+    let rec = ctx.run_with(&sc_run, move |w| {
+        if let Err(e) = w.deploy_all() {
+            w.rec.lock().unwrap().rec.panics.push(format!("deploy: {e}"));
+            return;
+        }
+        let starts = w.sc.starts.clone();
+        for s in &starts {
+            w.start(s);
+        }
+        w.settle();
+        w.capture("before the race");
+        w.qidx += 1;
+        // the messages of the open interrupts, in a seeded order
+        let mut ids: Vec<String> = w.rec.lock().unwrap().rec.msgs.iter().filter(|m| m.via == "message" && m.typ == "act" && m.state == "created" && m.key.starts_with('k')).map(|m| m.id.clone()).collect();
+        ids.sort();
+        ids.dedup();
+        let mut order: Vec<String> = vec![];
+        while !ids.is_empty() {
+            let i = vsim::choose(vsim::site::CLIENT, ids.len() as u32) as usize;
+            order.push(ids.remove(i));
+        }
+        order.truncate(n_ack);
+        // the messages become stale: the tick that is due redelivers them
+        vsim::jump_us(2_100_000);
+        let race_start = vsim::seq();
+        vsim::vthread::begin(preempt);
+        let engine = w.engine().clone();
+        let epoch = w.epoch;
+        let acks3 = acks2.clone();
+        let h = vsim::vthread::spawn("acker", move || {
+            vsim::set_epoch(epoch);
+            for id in order {
+                let s0 = vsim::bump_seq();
+                let ok = engine.executor().msg().ack(&id).is_ok();
+                let s1 = vsim::bump_seq();
+                vsim::log(&format!("ACK {} -> {}", id, ok));
+                acks3.lock().unwrap().push((id, s0, s1, ok));
+            }
+        });
+        let (_n, ok) = crate::layer2::run_executor_with_threads(100_000);
+        let st = vsim::vthread::end();
+        let _ = h.join();
+        *stats2.lock().unwrap() = (st.points, st.switches, st.deadlock, ok, race_start);
+        w.settle();
+        w.capture("after the race");
+        w.qidx += 1;
+        // later ticks, on layer 1
+        for _ in 0..later_ticks {
+            vsim::jump_us(1_200_000);
+            if !w.tick() {
+                break;
+            }
+            if w.settle() == vsim::Outcome::StepCap {
+                break;
+            }
+            w.capture("");
+            w.qidx += 1;
+        }
+    });
+    let mut out = CaseOut { scenario: Some(sc.clone()), ..Default::default() };
+    let st = stats.lock().unwrap().clone();
+    if let Some(d) = &st.2 {
+        out.violations.push(Violation::new("C09", "engine_lock_deadlock", json!({"threads": true}), format!("the engine deadlocked on its own locks while a client thread acknowledged messages: {}", d)));
+        return out;
+    }
+    if discard_if_broken(&rec, &mut out) {
+        return out;
+    }
+    if !st.3 {
+        out.discarded = Some("threads did not settle".into());
+        return out;
+    }
+    ctx.count("layer2.sched_points", st.0);
+    ctx.count("layer2.switches", st.1);
+    if sc.engine.store == "sqlite" {
+        ctx.count("probe.sqlite", 1);
+    }
+    let acks = acks.lock().unwrap().clone();
+    let race_start = st.4;
+    let first_invoke = acks.iter().map(|a| a.1).min().unwrap_or(0);
+    let last_return = acks.iter().map(|a| a.2).max().unwrap_or(0);
+    let race_deliveries: Vec<&MsgRec> = rec.msgs.iter().filter(|m| m.via == "message" && m.seq > race_start && m.retry > 0).collect();
+    if !race_deliveries.is_empty() {
+        ctx.count("probe.redelivered_in_the_race", 1);
+    }
+    let overlapped = race_deliveries.iter().any(|m| m.seq > first_invoke && m.seq < last_return);
+    if overlapped {
+        ctx.count("probe.ack_overlapped_the_tick", 1);
+    }
+    let n_irq = rec.msgs.iter().filter(|m| m.via == "message" && m.typ == "act" && m.state == "created" && m.retry == 0 && m.key.starts_with('k')).count();
+    if acks.len() == n_irq {
+        ctx.count("probe.all_messages_acked", 1);
+    }
+    // the later ticks all start after every acknowledgement has returned
+    let later: Vec<u64> = rec.ops.iter().filter(|o| o.op == "tick").map(|o| o.seq).collect();
+    let mut v = vec![];
+    for (id, _s0, s1, ok) in &acks {
+        if !ok {
+            continue;
+        }
+        if let Some(first_later) = later.first() {
+            if let Some(m) = rec.msgs.iter().find(|m| &m.id == id && m.via == "message" && m.seq > *first_later) {
+                v.push(Violation::new("C09", "acknowledged_message_redelivered_under_race", json!({"store": sc.engine.store}), format!("message {} (key {}) was acknowledged (the call returned at seq {}) while the tick was redelivering; a later tick (started at seq {}) delivered it again at seq {} with retry {}", id, m.key, s1, first_later, m.seq, m.retry)));
+                break;
+            }
+        }
+        // stored status at the quiescent points after the race
+        for q in rec.qpoints.iter().filter(|q| q.seq > *s1) {
+            if let Some(row) = q.msg_rows.iter().find(|r| &r.id == id) {
+                if row.status != "acked" && row.status != "completed" {
+                    v.push(Violation::new("C09", "acknowledgement_lost_under_race", json!({"store": sc.engine.store, "status": row.status}), format!("message {} was acknowledged (the call returned Ok at seq {}) while the tick was redelivering it; at quiescent point {} its stored status is `{}` with retry {} - the tick wrote its stale copy of the row over the acknowledgement", id, s1, q.idx, row.status, row.retry_times)));
+                    break;
+                }
+            }
+        }
+        if !v.is_empty() {
+            break;
+        }
+    }
+    out.violations = v;
+    out.nontrivial = overlapped;
+    out.outcome_hash = outcome_hash(&rec);
+    out.sample = basic_sample(&sc, &rec, json!({"preempt_permille": preempt, "acknowledged": acks.len(), "lock_sched_points": st.0, "baton_switches": st.1, "later_ticks": later.len()}));
+    out
+}
